@@ -346,6 +346,9 @@ func expandAt(p *Prog, t *Term) *Term {
 }
 
 func expandCallTerm(p *Prog, call *Term) []*Term {
+	if cv, isCall := call.V.(*ssa.Call); isCall && cv == nil {
+		return nil // the call of a go / defer statement has no value
+	}
 	c, ok := call.V.(ssa.CallInstruction)
 	if !ok {
 		return nil
